@@ -523,12 +523,20 @@ class TopologicalSorter:
         for name in names:
             add_node(name)
 
-        has_before, has_after = set(), set()
         for a, b in order:
             if a in names and b in names:  # deal with missing dependencies
                 add_arc(a, b)
-                has_before.add(a)
-                has_after.add(b)
+
+        has_before = {
+            name
+            for name, befores in self.name2before.items()
+            if any(b in names for b in befores)
+        }
+        has_after = {
+            name
+            for name, afters in self.name2after.items()
+            if any(a in names for a in afters)
+        }
 
         if not self.req_before.issubset(has_before):
             # avoid circular dependency
